@@ -856,7 +856,7 @@ func genHistory(r *rng) (ops []string) {
 	// post-placement edits
 	for j := r.below(9); j > 0; j-- {
 		k := r.below(nsig)
-		switch r.below(17) {
+		switch r.below(18) {
 		case 0, 1, 2:
 			// SetType: around the exact fit of the free bits behind, and of behind + the gap in front
 			nsz := 1 + r.below(20)
@@ -903,6 +903,13 @@ func genHistory(r *rng) (ops []string) {
 			// UpdateSizeByte: the byte in which the last signal ends, one less, one more
 			e := lastEnd()
 			do(fmt.Sprintf("SZ %d", pick([]int{(e + 7) / 8, (e+7)/8 - 1, e / 8, (e+7)/8 + 1, 1 + r.below(8)})))
+		case 16:
+			// place again a signal that was removed or never accepted (it keeps the byte order it had)
+			if r.below(2) == 0 {
+				do(fmt.Sprintf("AP %d", k))
+			} else {
+				do(fmt.Sprintf("IN %d %d", k, r.below(8*nbytes)))
+			}
 		default:
 			do(fmt.Sprintf("EC %d", r.below(nenum)))
 		}
